@@ -1104,6 +1104,13 @@ class Interp:
         if m == "map" and isinstance(recv, tuple) and recv[0] in ("Some", "None", "Ok", "Err") and e["a"] and e["a"][0].get("k") == "path" \
                 and e["a"][0]["p"].split("::")[-1] in ("from", "into", "clone", "to_owned"):
             return recv          # conversion functions are value-preserving in the model
+        if m == "filter" and isinstance(recv, tuple) and recv[0] in ("Some", "None") and len(recv) <= 2 and args and isinstance(args[0], dict) and args[0].get("k") == "closure":
+            if recv[0] == "None":
+                return recv
+            r = self.call_closure(args[0], [recv[1]])
+            if isinstance(r, bool):
+                return recv if r else ("None",)
+            raise Unknown("Option::filter predicate not decidable")
         if m == "or_else" and isinstance(recv, tuple) and recv[0] in ("Some", "None") and args and isinstance(args[0], dict):
             return recv if recv[0] == "Some" else self.call_closure(args[0], [])
         if m == "or" and isinstance(recv, tuple) and recv[0] in ("Some", "None") and args:
